@@ -60,6 +60,26 @@ class C13(XsProp):
                     pt = ' | '.join('push %s' % cells.fmt(a) for a in targs)
                     cs.append('%s | clone%s | eval %s | stack | use 1%s | eval %s | stack' % (
                         pre, (' | ' + pa) if pa else '', hexsrc(w), (' | ' + pt) if pt else '', hexsrc(w)))
+        # boundary operands with a tag on each single position (and on all): zero, one, minus one for numbers
+        tagm = [(('S', b'k'), ('I', 1))]
+        for w in names:
+            if w in words.EXTERNAL or w in words.TAG_WORDS or w in words.FMT_WORDS or w == 'exit':
+                continue
+            sig = words.SIG.get(w)
+            if not sig or len(sig) > 2 or not all(t in ('num', 'int', 'any', 'real') for t in sig):
+                continue
+            small = {'num': [('I', 0), ('I', 1), ('I', -1), ('R', '0000000000000000'), ('R', '3ff0000000000000')],
+                     'int': [('I', 0), ('I', 1), ('I', -1)], 'real': [('R', '0000000000000000'), ('R', '3ff0000000000000')],
+                     'any': [('I', 0), ('N',), ('S', b'')]}
+            import itertools as _it
+            for args in _it.product(*[small[t] for t in sig]):
+                pats = [tuple(i == k for i in range(len(sig))) for k in range(len(sig))] + ([tuple(True for _ in sig)] if len(sig) > 1 else [])
+                for pat in pats:
+                    targs = [('G', a, tagm) if tg else a for a, tg in zip(args, pat)]
+                    pre = 'xs limits 3000 200 - | input a50f33cc0100ff41420043 4 84 | intercept on'
+                    pa = ' | '.join('push %s' % cells.fmt(a) for a in args)
+                    pt = ' | '.join('push %s' % cells.fmt(a) for a in targs)
+                    cs.append('%s | clone | %s | eval %s | stack | use 1 | %s | eval %s | stack' % (pre, pa, hexsrc(w), pt, hexsrc(w)))
         # the tag words behave as a map attached to the value, without altering it
         for _ in range(60 if tier == 'quick' else 1500):
             v = cells.rand_cell(rng, tags=0.3)
